@@ -87,8 +87,27 @@ struct Reopened {
     dir_kib: i64,
 }
 
-/// Open `dir` with the real constructor (recovery) on a throw-away runtime and read back everything observable.
+static HANGS: std::sync::atomic::AtomicUsize = std::sync::atomic::AtomicUsize::new(0);
+
+/// `reopen_inner` under a watchdog: a recovery that does not finish within 20 s of wall-clock time
+/// is reported as not completing (the worker thread is abandoned).
 fn reopen(dir: &Path, nk: u64) -> Reopened {
+    let (tx, rx) = std::sync::mpsc::channel();
+    let d = dir.to_path_buf();
+    std::thread::spawn(move || {
+        let _ = tx.send(reopen_inner(&d, nk));
+    });
+    match rx.recv_timeout(std::time::Duration::from_secs(20)) {
+        Ok(r) => r,
+        Err(_) => {
+            HANGS.fetch_add(1, std::sync::atomic::Ordering::SeqCst);
+            Reopened { ok: false, panic: false, state: vec![], foreign: 0, counter: -1, failed: -1, nevents: -1, recovered: -1, peak_kib: 1 << 30, dir_kib: 0 }
+        }
+    }
+}
+
+/// Open `dir` with the real constructor (recovery) on a throw-away runtime and read back everything observable.
+fn reopen_inner(dir: &Path, nk: u64) -> Reopened {
     let dir_kib = (dir_bytes(dir) / 1024) as i64;
     let d = dir.to_path_buf();
     crate::alloc::reset_peak();
@@ -254,6 +273,9 @@ pub fn drive(a: &Args) -> i32 {
     let foreign_bytes = std::fs::read(foreign_dir.join("state.wal")).unwrap_or_default();
 
     for seg in 0..segments {
+        if HANGS.load(std::sync::atomic::Ordering::SeqCst) >= 3 {
+            break; // recoveries do not terminate: enough evidence, do not burn the time budget
+        }
         let long = long_every > 0 && seg % long_every == long_every - 1;
         // long segments use more keys: a lost record stays visible until its key is rewritten
         let nk: u64 = if long { 16 } else { rng.gen_range(1..=4) };
